@@ -17,7 +17,7 @@ ID = "C03"
 LEVEL = "model_checking"
 RULE = ("operations: full product location x kind x required (parameter matrix), media type x body kind (body matrix), "
         "deviation-bounded builder over method, path shape, hostile names, same name in two locations, path-item "
-        "override, two media types, security; inputs: every argument in {unset, v1, v2} one at a time over a base "
+        "override, two media types, security; plus security requirement forms (operation / document level, cleared, replaced, alternatives, api key, basic), path items whose shared parameters each operation inherits or re-declares (all combinations over 3-4 methods), content_type_overrides bodies, reusable parameters with names equal after normalisation, all call sequences of length 3 (thorough 4) over 7 actions through ONE client compared with fresh-client calls, all sequences of length 4 (thorough 5) over 10 client actions (with_headers / with_cookies / with_timeout / touch / enter / calls) on an authenticated client against a reference model of the accumulated extras; inputs: every argument in {unset, v1, v2} one at a time over a base "
         "vector + all-set + all-unset; non-trivial = the operation was generated and at least one request captured")
 FLOOR = 0.5
 ASSUMPTIONS = ["httpx request encoding and MockTransport are trusted",
